@@ -723,7 +723,7 @@ SEL = {
     "hint": 2, "fname": 4, "casttype": 3, "over": 5, "corr": 2, "pm": 3, "neg": 3, "col2": 2, "aname": 2,
 }
 DML = {"kind": 3, "vals": 6, "v": 4, "v2": 3, "vs": 3, "ret": 3, "onc": 4, "dwhere": 3, "inline": 2, "prefix": 2, "pk": 4, "incdef": 2, "many": 2}
-TYPES = {"tcls": 32, "arg": 5, "va": 7, "v": 4}   # class / argument indices beyond the catalogue are skipped
+TYPES = {"tcls": 28, "arg": 3, "va": 7, "v": 4}   # class / argument indices beyond the catalogue are skipped
 SIB = {"va": 4, "vb": 4}
 ORM = {"ent": 4, "where": 4, "v": 4, "join": 3, "opt": 7, "order": 2, "limit": 2, "alias": 2}
 LITERAL_COORDS = {"v", "v2", "vs", "pk", "pm"}  # coordinates that only change values (pm: where the value of "p" comes from)
